@@ -6,6 +6,7 @@ import (
 	"fmt"
 	"os"
 	"strings"
+	"syscall"
 )
 
 // WorkerMain is the main function of a per-property worker binary.
@@ -40,8 +41,18 @@ func WorkerMain() {
 			}
 		}
 		json.NewEncoder(os.Stdout).Encode(map[string]any{"id": m.ID, "level": m.Level, "rule": m.Rule,
-			"assumptions": m.Assumptions, "ncases": len(cs) - nr, "nrace": nr})
+			"assumptions": m.Assumptions, "ncases": len(cs) - nr, "nrace": nr, "memlimit_mb": m.MemLimitMB})
 		return
+	}
+	if v := os.Getenv("VERIF_RLIMIT_AS_MB"); v != "" {
+		var mb uint64
+		fmt.Sscan(v, &mb)
+		if mb > 0 {
+			lim := syscall.Rlimit{Cur: mb << 20, Max: mb << 20}
+			if err := syscall.Setrlimit(syscall.RLIMIT_AS, &lim); err != nil {
+				fmt.Fprintln(os.Stderr, "setrlimit:", err)
+			}
+		}
 	}
 	if err := RunShard(m, *tier, *seed, *shard, *nshards, *only, *skip, *raceOnly, *noRace, *out, *intent); err != nil {
 		fmt.Fprintln(os.Stderr, "worker:", err)
